@@ -80,6 +80,31 @@ P = {
              "to 64 and their edits are recorded from the code and judged by the trace spec.",
         tech="TLC model checking of VT.tla + exhaustive replay into set_vt/decode + trace validation of long strands",
         ref="5/C07"),
+    "C08": dict(
+        spec="Repair, MC_Repair, Trace_Repair",
+        text="repair_dna/path_matching are transcribed operationally (scan step per action with Python slice semantics, k-state "
+             "look-back, saturation substitution/insertion/deletion, product, check filter); TLC checks Recovers and DetectsIffNotWalk "
+             "on every walk of the scope's generated graphs x every admissible single edit (pairs thorough); every exported case is "
+             "replayed: a result equal to the machine's inherits TLC's verdict, a differing one is judged on its own from the recorded "
+             "output; seeded 40..200 nt walks with 1..4 spaced edits on orders 2..4 are judged by the trace spec, which also decides "
+             "admissibility.",
+        tech="TLC model checking of the repair machine + replay of all exported cases + trace validation of recorded calls",
+        ref="5/C08"),
+    "C09": dict(
+        spec="Repair, MC_Repair, Trace_Repair",
+        text="CleanLeftAlone, SortedUnique and CheckConsistent are invariants of the repair machine over every A/C/G/T string of "
+             "length k..5 (7) x graphs x starts x check variants x indel x heap limits; replay as in C08; the shape predicates are "
+             "evaluated by TLC on the recorded output, so they hold or fail regardless of how the candidates were produced.",
+        tech="TLC model checking of the repair machine + replay + trace validation of recorded outputs",
+        ref="5/C09"),
+    "C10": dict(
+        spec="Repair, MC_Repair, Trace_Repair",
+        text="Termination is safety here: ScanAdvances (action property), TickBound (<= n scan iterations) and LookupBound hold for "
+             "every string of the scope; repair_dna runs under a scan-tick budget of n taken from the specification, so a loop that "
+             "no longer advances is a finite, replayable verdict; well-formed result, no exception, look-up counter inside the "
+             "polynomial bound, errors at the first nucleotide / last window / everywhere included.",
+        tech="TLC bounded-termination invariants and action property + tick-budgeted execution + trace validation",
+        ref="5/C10"),
     "C11": dict(
         spec="Generate, Filter, MC_Find, Trace_Generate",
         text="FindVertices and the vertex-induced valid graph are defined in the specification; TLC enumerates order-2 vertex sets as "
@@ -107,6 +132,14 @@ P = {
              "trace spec (ValueError iff some arc is not a shift).",
         tech="TLC model checking of Views.tla + exhaustive replay + trace validation",
         ref="5/C14"),
+    "C18": dict(
+        spec="Coding (DigitToArc/ArcToDigit), MC_Shuffle, Trace_Shuffle",
+        text="For all 24 rows x 15 live-arc patterns TLC checks that digit -> arc is a bijection with ArcToDigit as inverse and exports "
+             "1056 first-step experiments for both modes; the real encoder must emit the exported arc/strand and decode must invert "
+             "it; create_random_shuffles is exercised in seeded call histories (k = 1..6, repeated seeds, interleaved with other users "
+             "of the global random state) whose log is judged by the trace spec: shape, same seed same table, earlier results untouched.",
+        tech="TLC exhaustive check of the per-row bijection + replay of first-step experiments + trace validation of call histories",
+        ref="5/C18"),
     "C15": dict(
         spec="Bignum, MC_Bignum, Trace_Bignum, Ind_Mul, Ind_Div, Ind_Add",
         text="The four decimal-string helpers are transcribed as digit-serial machines shaped like the code; TLC steps them one "
